@@ -184,7 +184,7 @@ def build_coq(pid, log):
 
 def build_harness(cfg, pid, log):
     h = cfg["harness"]
-    with Lock("go"):
+    with Lock("go-" + pid):
         os.makedirs(os.path.join(HARN, "bin"), exist_ok=True)
         if h["kind"] == "bin":
             out_bin = os.path.join(HARN, "bin", h["pkg"])
